@@ -252,6 +252,7 @@ class IdentifierHistories(Contract):
     variant = "identifier-histories"
     symbolic = False
     has_native = True
+    native_shards = 4
     props = ("C06",)
     bounded_scope = ("two file-backed workspaces; sequences of 5-10 operations over {create points/group/data/property group, create with an identifier in use by the same kind (given as UUID, text, braced or upper-case text, or through the 'ID' attribute key) / a type with the identifier of a type of another class / "
                      "another kind / a property group, property group with an object's or data's identifier, data with its parent's or a group's identifier, copy within / into the other workspace (also after the source gained new property groups, so that identifiers are free and taken in the same copy), a data type copied into the other workspace, (twice, also after removing the earlier copy there), remove, re-create with the "
